@@ -93,7 +93,7 @@ SPACE = [
     ("geometry", ["apart", "coincident", "axis-aligned", "weak-1e-8", "just-above-threshold", "just-below-threshold", "far", "moderate-3", "moderate-10"]),
     ("contraction", ["1prim", "2prim", "6prim", "gen-same", "gen-mixed", "2prim-increasing", "6prim-unsorted"]),
     ("conventions", ["horton2", "fchk", "molden", "wfn", "cca", "scr1", "scr2"]),
-    ("mode", ["two-bases", "one-basis", "one-basis-5-centers", "same-object-twice"]),
+    ("mode", ["two-bases", "one-basis", "one-basis-5-centers", "same-object-twice", "two-bases-same-index"]),
     ("exponents", [0, 1, 2, 3]),
 ]
 
@@ -173,6 +173,18 @@ def overlap_worker(chunk, seed, tier):
                 want, slack = gto.overlap(common.plain(b0), conv, c0, common.plain(b1), conv1, c1, screen=1e-15)
                 swapped = compute_overlap(b1, c1, b0, c0)
                 shifted = compute_overlap(b0, c0 + np.array([0.37, -1.21, 0.55]), b1, c1 + np.array([0.37, -1.21, 0.55]))
+            elif case["mode"] == "two-bases-same-index":
+                # both shells carry centre index 0, each in its own geometry: equal indices do not mean equal positions
+                from iodata.basis import Shell
+
+                s1z = Shell(0, list(s1.angmoms), list(s1.kinds), np.array(s1.exponents), np.array(s1.coeffs))
+                b0 = MolecularBasis([s0], conv, "L2")
+                b1 = MolecularBasis([s1z], conv, "L2")
+                c0, c1 = xyz[:1], xyz[1:]
+                got = compute_overlap(b0, c0, b1, c1)
+                want, slack = gto.overlap(common.plain(b0), conv, c0, common.plain(b1), conv, c1, screen=1e-15)
+                swapped = compute_overlap(b1, c1, b0, c0)
+                shifted = compute_overlap(b0, c0 + np.array([0.37, -1.21, 0.55]), b1, c1 + np.array([0.37, -1.21, 0.55]))
             elif case["mode"] == "same-object-twice":
                 # the very same basis object for both arguments, evaluated at two different geometries
                 from iodata.basis import Shell
@@ -214,7 +226,7 @@ def overlap_worker(chunk, seed, tier):
             i = np.unravel_index((err - tol).argmax(), err.shape)
             part.violation("overlap", f"overlap:value:{t0}x{t1}:{devs}", desc, f"element {i}: got {got[i]!r}, reference {want[i]!r} (tol {tol[i]:.2e}); shells {t0} x {t1}; {devs}")
             continue
-        if case["mode"] not in ("two-bases", "same-object-twice"):
+        if case["mode"] not in ("two-bases", "same-object-twice", "two-bases-same-index"):
             sym = np.abs(got - got.T).max() <= 1e-13 + 2 * slack.max()
             lam = np.linalg.eigvalsh((got + got.T) / 2).min()
             psd = lam >= -1e-10 - slack.sum()
@@ -296,7 +308,7 @@ def run(ctx):
     ctx.rule = (
         f"(1) 1-D kernel: all 64 (n1,n2)<=7 on the full 9x9x9 grid of (x1,x2,two_at) against Gauss-Hermite quadrature; the kernel is a polynomial of degree <=7 in each of x1, x2, 1/two_at, "
         f"so agreement on 9 points per variable is identity for all reals. (2) every entry of the Cartesian-to-pure tables l<=7 and every Cartesian normalisation n<=7 x 8 exponents. "
-        f"(3) compute_overlap: all ordered pairs of shell types (l<={lmax} Cartesian, 2..{lmax} pure) x deviation-bounded enumeration k<={k} over geometry(9: generic, coincident, axis-aligned, prefactor 1e-8, 3e-15, 3e-16, far, 3 and 10 bohr apart) x contraction(7, incl. primitives listed in increasing and unsorted order; distance x primitive order also as a full product) x conventions(7) x mode(4: two bases, one basis, one basis on 5 centres, the same object twice at two geometries) x exponent set(4). "
+        f"(3) compute_overlap: all ordered pairs of shell types (l<={lmax} Cartesian, 2..{lmax} pure) x deviation-bounded enumeration k<={k} over geometry(9: generic, coincident, axis-aligned, prefactor 1e-8, 3e-15, 3e-16, far, 3 and 10 bohr apart) x contraction(7, incl. primitives listed in increasing and unsorted order; distance x primitive order also as a full product) x conventions(7) x mode(5: two bases, one basis, one basis on 5 centres, the same object twice at two geometries, two bases whose shells carry the same centre index) x exponent set(4). "
         "Distinct = (type pair, deviation set)."
     )
     ctx.assumptions += [
